@@ -261,6 +261,10 @@ def observations(D, R, seed):
     mats = [sps.coo_matrix(B), sps.coo_matrix(2 * B + 1)]
     obs.append(('contract_multi', lambda: D.contract_multi(mats),
                 lambda: np.array([np.sum(R * B), np.sum(R * (2 * B + 1))])))
+    # None placeholders in the operand list contribute 0 at their own position (the code handles them explicitly)
+    mats_n = [sps.coo_matrix(B), None, sps.coo_matrix(2 * B + 1), None, sps.coo_matrix(-B)]
+    obs.append(('contract_multi_none', lambda: D.contract_multi(mats_n),
+                lambda: np.array([np.sum(R * B), 0.0, np.sum(R * (2 * B + 1)), 0.0, -np.sum(R * B)])))
     x = rd.vec(c, 23, seed)
     xc = rd.vec(c, 24, seed, True)
     y = rd.vec(r, 25, seed)
